@@ -44,10 +44,15 @@ def convert_bools(
             return [convert_bools(item) for item in cel_object]
 
         case celtypes.MapType() | dict():
-            return {
-                convert_bools(key): convert_bools(value)
-                for key, value in cel_object.items()
-            }
+            converted = {}
+            for key, value in cel_object.items():
+                converted_key = convert_bools(key)
+                if converted_key in converted and not isinstance(key, str):
+                    # A key that only equals another one after conversion
+                    # (base64 text of a bytes key) must not replace it.
+                    continue
+                converted[converted_key] = convert_bools(value)
+            return converted
 
         case celtypes.NullType():
             return None
